@@ -358,3 +358,127 @@ def rule_time_length_last(ctx):
     var = [x for x in ast.walk(t) if isinstance(x, ast.Call) and call_name(x) == 'len']
     ok = len(var) == 1 and any(isinstance(x.ast.targets[0], ast.Subscript) and norm(x.ast.targets[0].value) == norm(var[0].args[0]) for x in dels)
     ctx.ob('A11.len', f, 'the measured object is the one the trim edits', ok, norm(t), nontrivial=False)
+
+
+# ------------------------------------------------------------------- A13.clear
+
+def rule_container_cleared(ctx):
+    """A13.clear: a container built by cloning the guiding type / the prototype is a *schema* object until something is
+    stored in it or `clear()` is called; the constructed decoders hand it out as the result, so on every path from the
+    clone to the result yield `clear()` must have been called - otherwise an empty SEQUENCE / SET / SEQUENCE OF comes back
+    as a valueless placeholder (`30 80 00 00` with a guiding SEQUENCE OF: isValue False, the enclosing value unusable)."""
+    from sa.cfg import reaching_defs
+    n = 0
+    for q in ('codec.ber.decoder.ConstructedPayloadDecoderBase.valueDecoder',
+              'codec.ber.decoder.ConstructedPayloadDecoderBase.indefLenValueDecoder',
+              'codec.ber.decoder.ConstructedPayloadDecoderBase._decodeComponentsSchemaless'):
+        f = ctx.func(q)
+        cfg = ctx.cfg(f)
+        rd = reaching_defs(cfg, f.params())
+        results = [y for y in cfg.stmt_nodes() if y.kind == 'stmt' and isinstance(y.ast, ast.Expr) and isinstance(y.ast.value, ast.Yield)
+                   and isinstance(y.ast.value.value, ast.Name)]
+        for y in results:
+            var = y.ast.value.value.id
+            clones = [d for d in rd[y].get(var, set()) if getattr(d, 'kind', '') == 'stmt' and isinstance(d.ast, ast.Assign) and
+                      isinstance(d.ast.value, ast.Call) and call_name(d.ast.value) == 'clone']
+            for c in clones:
+                def is_clear(node, var=var):
+                    return node.kind == 'stmt' and isinstance(node.ast, ast.Expr) and isinstance(node.ast.value, ast.Call) and \
+                        norm(node.ast.value.func) == '%s.clear' % var
+                ok = cfg.must_pass(c, y, is_clear)
+                n += 1
+                ctx.ob('A13.clear', f, 'container `%s = %s` is cleared before it is handed out' % (var, norm(c.ast.value)[:50]), ok,
+                       'some path from the clone to `yield %s` never calls %s.clear(): an empty container is returned as a schema '
+                       'object (isValue False) instead of an empty value' % (var, var) if not ok else 'clear() on every path', node=c.ast)
+    if n < 3:
+        raise AnalysisError('A13.clear found only %d cloned result containers' % n)
+
+
+# ------------------------------------------------------------------- C16.tags (scalar results)
+
+def rule_scalar_result_tags(ctx):
+    """C16.tags: a schemaless scalar result is the prototype re-tagged with the tag set recovered from the wire: every
+    `protoComponent.clone(...)` in a `_createComponent` of the BER decoder passes `tagSet=<the tagSet parameter>`
+    (the prototype of a codec that serves several universal types - INTEGER / ENUMERATED - carries only one of their tags)."""
+    n = 0
+    for f in sorted(ctx.prog.all_functions(), key=lambda f: f.qualname):
+        if f.module.name != 'pyasn1.codec.ber.decoder' or f.name != '_createComponent':
+            continue
+        params = f.params()
+        if 'tagSet' not in params:
+            continue
+        for c in walk_own(f.node):
+            if isinstance(c, ast.Call) and call_name(c) == 'clone' and norm(c.func).endswith('protoComponent.clone'):
+                n += 1
+                kw = [k for k in c.keywords if k.arg == 'tagSet']
+                ok = len(kw) == 1 and norm(kw[0].value) == 'tagSet'
+                ctx.ob('C16.tags', f, 'prototype clone `%s` carries the recovered tag set' % norm(c)[:60], ok,
+                       'the result is built from the prototype without `tagSet=tagSet`: a value whose codec serves several '
+                       'types (ENUMERATED is decoded by the INTEGER codec) comes back with the prototype\'s tag - '
+                       '`0a 01 03` decodes as INTEGER and re-encodes as `02 01 03`' if not ok else 'tagSet=tagSet', node=c)
+    if n < 1:
+        raise AnalysisError('no prototype clone found in the _createComponent methods')
+
+
+# ------------------------------------------------------------------- C17.native (scalar decoders)
+
+def rule_native_scalar_value(ctx):
+    """C17.native: the native scalar decoders build the result by passing a value derived from the Python object as the
+    *positional* value of `asn1Spec.clone(...)`; with keyword initialisers only, clone() keeps the value the spec object
+    already holds (a DEFAULT member's default, a typed SEQUENCE OF's prototype value) and the input is ignored."""
+    m = ctx.mod('codec.native.decoder')
+    n = 0
+    for f in sorted(ctx.prog.all_functions(), key=lambda f: f.qualname):
+        if f.module is not m or f.name != '__call__' or f.cls is None:
+            continue
+        params = f.params()
+        if len(params) < 3:
+            continue
+        py, spec = params[1], params[2]
+        body = [s_ for s_ in f.node.body if not (isinstance(s_, ast.Expr) and isinstance(s_.value, ast.Constant))]
+        if not (len(body) == 1 and isinstance(body[0], ast.Return)):
+            continue        # the container decoders fill a clone component by component
+        for c in walk_own(f.node):
+            if isinstance(c, ast.Call) and norm(c.func) == '%s.clone' % spec:
+                n += 1
+                ok = bool(c.args) and py in names_used(c.args[0])
+                ctx.ob('C17.native', f, 'result `%s` takes its value from the Python object' % norm(c)[:60], ok,
+                       'no positional value derived from `%s`: clone() with keyword initialisers only re-uses the value the '
+                       'guiding object holds, so the decoded value is the spec\'s, not the input\'s' % py if not ok else 'positional value', node=c)
+    if n < 2:
+        raise AnalysisError('native scalar decoders not found (%d)' % n)
+
+
+# ------------------------------------------------------------------- A6.openflag
+
+def rule_open_types_flag(ctx):
+    """A6.openflag: `NamedTypes.hasOpenTypes` is true as soon as some member has an open type - whether that member is
+    OPTIONAL / DEFAULT or not: the flag gates the whole open-type pass of both record decoders."""
+    f = ctx.func('type.namedtype.NamedTypes.__init__')
+    cfg = ctx.cfg(f)
+    sets = [n for n in cfg.stmt_nodes() if n.kind == 'stmt' and isinstance(n.ast, ast.Assign) and
+            any(isinstance(t, ast.Attribute) and t.attr.endswith('hasOpenTypes') for t in n.ast.targets)]
+    if not sets:
+        raise AnalysisError('hasOpenTypes is not set in %s' % f.short)
+    saw = False
+    for s_ in sets:
+        v = s_.ast.value
+        txt = norm(v)
+        if isinstance(v, ast.Constant) and v.value is False:
+            continue
+        saw = True
+        deps = []       # every enclosing test with the arm the statement sits in (transitively)
+        cur = s_.ast
+        for a in ancestors(s_.ast, f.node):
+            if isinstance(a, ast.If):
+                deps.append((norm(a.test), 'true' if any(cur is x for x in a.body) else 'false'))
+            cur = a
+        other = [t for t, lab in deps if 'isOptional' in t or 'isDefaulted' in t]
+        inside = ('isOptional' in txt or 'isDefaulted' in txt)
+        ok = 'openType' in txt + ' '.join(t for t, lab in deps) and not other and not inside
+        ctx.ob('A6.openflag', f, 'hasOpenTypes depends on the members\' open types only', ok,
+               'the flag is set under a condition on isOptional / isDefaulted (%s): an OPTIONAL or DEFAULT open-type field '
+               '(AlgorithmIdentifier.parameters) never switches the open-type pass on and stays raw' % (other or txt[:60]) if not ok else txt[:60],
+               node=s_.ast)
+    if not saw:
+        raise AnalysisError('no truthy definition of hasOpenTypes in %s' % f.short)
